@@ -285,8 +285,13 @@ def split_atom(a):
     return a, None
 
 
+def role_defined(model, role):
+    """independent reading of the role table (never the model's own _has_role)"""
+    return any(re.fullmatch(p, role) is not None for p in list(model.roles) + [model.top_role, model.concept_role])
+
+
 def is_inverted(model, role):
-    return role.endswith('-of') and not model._has_role(role)
+    return role.endswith('-of') and not role_defined(model, role)
 
 
 def tree_vars(node):
